@@ -35,8 +35,12 @@ THEOREMS = [
     "SleapVerif.C08.tree_conns",
     "SleapVerif.C08.matches_one_to_one",
     "SleapVerif.C08.matches_optimal",
-    "SleapVerif.C08.matches_fixed_eq_asIs_when_feasible",
+    "SleapVerif.C08.matches_fixed_eq_asIs_when_valid",
+    "SleapVerif.C08.matches_fixed_optimal_when_feasible",
+    "SleapVerif.C08.final_classes_eq_components",
     "SleapVerif.C08.grouping_total",
+    "SleapVerif.C08.grouping_total_batch",
+    "SleapVerif.C08.candidates_complete",
     "SleapVerif.C08.grouping_total_partial",
     "SleapVerif.C08.grouping_infeasible_counterexample",
 ]
@@ -108,12 +112,48 @@ def gen_case(rng, big=False):
     stride = rng.choice([1, 2, 2, 4])
     H, W = rng.randrange(3, 10), rng.randrange(3, 10)
     B = rng.choice([1, 1, 2, 3])
-    mode = rng.choice(["noise", "field", "field", "mixed", "zero"])
+    mode = rng.choice(["noise", "field", "field", "mixed", "zero", "planted", "planted", "planted"])
     kmax = rng.choice([1, 2, 3, 4])
+    E = len(edges)
+    dirs = [(rng.choice([-1, 0, 1, 0.5, -0.5]), rng.choice([-1, 0, 1, 0.5, -0.5])) for _ in range(E)]
     samples = []
     for _ in range(B):
         if rng.random() < 0.12:
             samples.append({"peaks": [], "vals": [], "channels": []})
+            continue
+        if mode == "planted":
+            # animals laid out along the PAF directions (so that true pairs score high), with missing
+            # detections, a zero-length limb now and then (coincident peaks), and spurious peaks
+            dsts = {v for _, v in edges}
+            root = next(u for u, _ in edges if u not in dsts)
+            per_node = {u: [] for u in range(n)}
+            for _a in range(rng.choice([1, 2, 2, 3, 4])):
+                pos = {root: (rng.randrange(0, 4 * W * stride) / 4.0, rng.randrange(0, 4 * H * stride) / 4.0)}
+                todo = edges[:]
+                while todo:
+                    for e in todo:
+                        if e[0] in pos:
+                            k = edges.index(e)
+                            L = rng.choice([0, 1, 2, 2, 3, 4, 6]) * stride if rng.random() < 0.9 else 0
+                            pos[e[1]] = (pos[e[0]][0] + L * dirs[k][0], pos[e[0]][1] + L * dirs[k][1])
+                            todo.remove(e)
+                            break
+                for u, xy in pos.items():
+                    if rng.random() < 0.85 and xy not in per_node[u]:
+                        per_node[u].append(xy)
+            for u in range(n):
+                if rng.random() < 0.15:
+                    xy = (rng.randrange(0, 4 * W * stride) / 4.0, rng.randrange(0, 4 * H * stride) / 4.0)
+                    if xy not in per_node[u]:
+                        per_node[u].append(xy)
+            pts, vals, chs = [], [], []
+            for u in range(n):
+                for xy in per_node[u][:5]:
+                    pts.append([float(xy[0]), float(xy[1])]); vals.append(rng.randrange(1, 33) / 32.0); chs.append(u)
+            perm = list(range(len(pts)))
+            rng.shuffle(perm)
+            samples.append({"peaks": [pts[i] for i in perm], "vals": [vals[i] for i in perm],
+                            "channels": [chs[i] for i in perm]})
             continue
         pts, vals, chs = [], [], []
         for node in range(n):
@@ -141,9 +181,7 @@ def gen_case(rng, big=False):
             rng.shuffle(perm)
             pts, vals, chs = [pts[i] for i in perm], [vals[i] for i in perm], [chs[i] for i in perm]
         samples.append({"peaks": pts, "vals": vals, "channels": chs})
-    E = len(edges)
     paf = []
-    dirs = [(rng.choice([-1, 0, 1, 0.5, -0.5]), rng.choice([-1, 0, 1, 0.5, -0.5])) for _ in range(E)]
     for b in range(B):
         img = []
         for r in range(H):
@@ -153,7 +191,7 @@ def gen_case(rng, big=False):
                 for e in range(E):
                     if mode == "zero":
                         v = (0.0, 0.0)
-                    elif mode == "field" or (mode == "mixed" and rng.random() < 0.5):
+                    elif mode in ("field", "planted") or (mode == "mixed" and rng.random() < 0.5):
                         v = dirs[e]
                     else:
                         v = (rng.randrange(-12, 13) / 8.0, rng.randrange(-12, 13) / 8.0)
@@ -527,7 +565,7 @@ def compare_case(chk, impl, rec, mod, fixed, tag):
     n, edges, B = case["n"], case["edges"], len(case["samples"])
     for b in range(B):
         s, info = case["samples"][b], per[b]
-        small = {"n": n, "edges": edges, "sample": s, "b": b,
+        small = {"n": n, "edges": edges, "sample": s, "b": b, "pafs": case["pafs"][b],
                  "params": {k: case[k] for k in ("stride", "n_points", "min_line_scores", "min_instance_peaks",
                                                  "max_edge_length_ratio", "dist_penalty_weight")}}
         tags = [tag, f"nodes{n}", f"peaks{min(len(s['channels']), 9)}"]
@@ -577,6 +615,7 @@ def compare_case(chk, impl, rec, mod, fixed, tag):
             chk.disagree("get_connection_candidates == candidates", small, info["cands"], mc_)
         impl_status = "raise" if info["raise"] else "ok"
         key = None
+        keyd = {k: v for k, v in small.items() if k != "pafs"}
         if impl_status == "raise":
             cls, msg = info["raise"][1], info["raise"][2]
             want = {"ValueError": "raise infeasible", "KeyError": "raise keyError", "AssertionError": "raise assertion"}.get(cls)
@@ -586,7 +625,7 @@ def compare_case(chk, impl, rec, mod, fixed, tag):
             chk.fail(f"grouping raised {cls}: {msg}", small, info["raise"], sigs)
             chk.tag("excluded_region_cases")
             tags.append("impl_raise")
-            key = ("raise", json.dumps(small, sort_keys=True, default=str))
+            key = ("raise", json.dumps(keyd, sort_keys=True, default=str))
         else:
             if M["status"] != "ok":
                 chk.disagree("grouping raises exactly where the model does", small, "ok", M["status"])
@@ -630,7 +669,7 @@ def compare_case(chk, impl, rec, mod, fixed, tag):
                     tags.append("coincident_ok")
                     chk.tag("excluded_region_cases")
                 if s["channels"]:
-                    key = ("ok", json.dumps(small, sort_keys=True, default=str))
+                    key = ("ok", json.dumps(keyd, sort_keys=True, default=str))
             # the property itself on the implementation
             why = oracle_sample(case, s, info["mats"], info["matches"], min_line32, info["out"])
             if why:
@@ -715,7 +754,7 @@ def main(chk: Check):
     fixed = not as_is
     chk.extra["tree_variant"] = "repaired (fixes/C08-infeasible.patch applied)" if fixed else "as pinned (F-C08 present)"
     if any(f["id"] == "F-C08" for f in chk.known):
-        chk.known_replay("F-C08", still_fails=(w[0] == "raise"), detail=str(w)[:200])
+        chk.known_replay("F-C08", still_fails=(w[0] == "raise"), detail="the witness returns instances" if w[0] == "ok" else str(w)[:200])
     elif w[0] == "raise":
         chk.fail("F-C08 witness raises and no known-finding entry exists", WITNESS, w, [SIG])
 
@@ -725,12 +764,12 @@ def main(chk: Check):
     if cdir.is_dir():
         for f in sorted(cdir.glob("*.json")):
             cases.append(("corpus", json.loads(f.read_text())))
-    for _ in range(chk.n(260, 4000)):
+    for _ in range(chk.n(1200, 8000)):
         cases.append(("gen", gen_case(rng)))
-    for _ in range(chk.n(12, 300)):
+    for _ in range(chk.n(60, 600)):
         cases.append(("big", gen_case(rng, big=True)))
     check_cases(chk, impl, cases, fixed)
-    check_assign_cases(chk, impl, [gen_assign_case(rng) for _ in range(chk.n(1500, 20000))])
+    check_assign_cases(chk, impl, [gen_assign_case(rng) for _ in range(chk.n(3000, 20000))])
 
 
 def replay(chk: Check, payload):
@@ -741,14 +780,10 @@ def replay(chk: Check, payload):
     case = payload.get("case") or payload["disagreements"][0]["case"]
     if "case" in case and "sample" not in case:
         case = case["case"]
-    if "sample" in case:  # a shrunk per-sample case
+    if "sample" in case:  # a per-sample case as written by compare_case
         p = case["params"]
-        s = case["sample"]
-        H = W = 12
-        full = {"n": case["n"], "edges": case["edges"], "stride": p["stride"], "samples": [s],
-                "pafs": payload.get("pafs") or [[[[0.0] * (2 * len(case["edges"])) for _ in range(W)] for _ in range(H)]],
-                **{k: p[k] for k in p if k != "stride"}}
-        case = full
+        case = {"n": case["n"], "edges": case["edges"], "stride": p["stride"], "samples": [case["sample"]],
+                "pafs": [case["pafs"]], **{k: p[k] for k in p if k != "stride"}}
     if "groups" in case:
         check_assign_cases(chk, impl, [case])
     else:
